@@ -9,31 +9,139 @@
 package main
 
 import (
+	"bufio"
+	"bytes"
 	"encoding/json"
 	"flag"
 	"fmt"
 	"io/ioutil"
 	"log"
 	"os"
+	"os/exec"
+	"path/filepath"
+	"sort"
+	"strings"
+	"sync"
+	"time"
 
 	"github.com/Shopify/sarama"
+
+	cf "verifharness/internal/coqfmt"
 )
 
 func runSpec(s Spec) Result {
 	switch s.Comp {
+	case "producer":
+		return runProducer(s)
 	case "pcons":
 		return runPCons(s)
+	case "group":
+		return runGroup(s)
+	case "offsets":
+		return runOffsets(s)
+	case "client":
+		return runClient(s)
+	case "broker":
+		return runBroker(s)
 	}
 	return Result{Spec: s, Notes: []string{"unknown component"}}
+}
+
+// runChild executes specs in a child process; returns the results it produced and, if the child died,
+// the spec it was running and the tail of its stderr.
+func runChild(self string, dir string, idx int, specs []Spec, verbose bool) (results []Result, crashed *Spec, stderrTail string) {
+	f := filepath.Join(dir, fmt.Sprintf("child_%03d.json", idx))
+	data, _ := json.Marshal(specs)
+	if err := ioutil.WriteFile(f, data, 0o644); err != nil {
+		panic(err)
+	}
+	args := []string{"-child", f}
+	if verbose {
+		args = append(args, "-v")
+	}
+	cmd := exec.Command(self, args...)
+	var errb bytes.Buffer
+	cmd.Stderr = &errb
+	outp, err := cmd.StdoutPipe()
+	if err != nil {
+		panic(err)
+	}
+	if err := cmd.Start(); err != nil {
+		panic(err)
+	}
+	started := -1
+	finished := map[int]bool{}
+	sc := bufio.NewScanner(outp)
+	sc.Buffer(make([]byte, 1<<20), 1<<26)
+	for sc.Scan() {
+		line := sc.Text()
+		switch {
+		case strings.HasPrefix(line, "START "):
+			fmt.Sscanf(line, "START %d", &started)
+		case strings.HasPrefix(line, "RESULT "):
+			var r Result
+			if err := json.Unmarshal([]byte(line[7:]), &r); err == nil {
+				results = append(results, r)
+				finished[r.Spec.ID] = true
+			}
+		}
+	}
+	werr := cmd.Wait()
+	if werr != nil && started >= 0 && !finished[started] {
+		for i := range specs {
+			if specs[i].ID == started {
+				crashed = &specs[i]
+			}
+		}
+		t := errb.String()
+		if len(t) > 6000 {
+			// keep the head (the panic message and the first goroutine) and the tail
+			t = t[:4000] + "\n...\n" + t[len(t)-1500:]
+		}
+		stderrTail = t
+	}
+	return
+}
+
+func obsTerm(o string) string {
+	f := strings.Fields(o)
+	switch {
+	case len(f) == 2 && f[0] == "Call":
+		return "OCall " + f[1]
+	case len(f) == 3 && f[0] == "Ret":
+		return "ORet " + f[1] + " " + f[2]
+	case len(f) == 2 && f[0] == "Ev":
+		return "OEv " + f[1]
+	case len(f) == 2 && f[0] == "Closed":
+		return "OClosed " + f[1]
+	}
+	return "(OBad)" // does not type-check on purpose
+}
+
+var compCtor = map[string]string{"producer": "CProducer", "pcons": "CPCons", "group": "CGroup", "offsets": "COffsets", "client": "CClient", "broker": "CBroker"}
+
+func caseTerm(c CompObs) string {
+	cfg := make([]string, len(c.Cfg))
+	for i, v := range c.Cfg {
+		cfg[i] = cf.Nat(int(v))
+	}
+	obs := make([]string, len(c.Obs))
+	for i, o := range c.Obs {
+		obs[i] = obsTerm(o)
+	}
+	return fmt.Sprintf("{| c_comp := %s; c_cfg := %s; c_obs := %s; c_complete := %s |}", compCtor[c.Comp], cf.List(cfg), cf.List(obs), cf.Bool(c.Complete))
 }
 
 func main() {
 	out := flag.String("out", ".", "output directory")
 	seed := flag.Int64("seed", 1, "seed")
-	n := flag.Int("n", 0, "number of runs (0 = tier default)")
+	n := flag.Int("n", 0, "limit on the number of runs (0 = all of the tier)")
 	tier := flag.String("tier", "quick", "quick | thorough")
+	par := flag.Int("par", 8, "child processes in parallel")
 	child := flag.String("child", "", "child mode: file with run specs (JSON array)")
 	probe := flag.String("probe", "", "run one spec given as JSON and print the result")
+	replay := flag.String("replay", "", "re-run the spec of a replay file (JSON with a 'case' holding 'spec')")
+	only := flag.String("only", "", "restrict to one component")
 	verbose := flag.Bool("v", false, "sarama log to stderr")
 	flag.Parse()
 	if *verbose {
@@ -59,16 +167,168 @@ func main() {
 		if err := json.Unmarshal(data, &specs); err != nil {
 			panic(err)
 		}
+		w := bufio.NewWriter(os.Stdout)
 		for _, s := range specs {
-			fmt.Printf("START %d\n", s.ID)
+			fmt.Fprintf(w, "START %d\n", s.ID)
+			w.Flush()
 			r := runSpec(s)
 			b, _ := json.Marshal(r)
-			fmt.Printf("RESULT %s\n", b)
+			fmt.Fprintf(w, "RESULT %s\n", b)
+			w.Flush()
 		}
 		return
 	}
-	_ = out
-	_ = seed
-	_ = n
-	_ = tier
+
+	var specs []Spec
+	if *replay != "" {
+		data, err := ioutil.ReadFile(*replay)
+		if err != nil {
+			panic(err)
+		}
+		var rp struct {
+			Case struct {
+				Spec Spec `json:"spec"`
+			} `json:"case"`
+		}
+		if err := json.Unmarshal(data, &rp); err != nil {
+			panic(err)
+		}
+		// a replay is run three times: shutdown races depend on timing
+		for i := 0; i < 3; i++ {
+			s := rp.Case.Spec
+			s.ID = i
+			specs = append(specs, s)
+		}
+	} else {
+		specs = makeSpecs(*seed, *tier == "thorough", *n)
+	}
+	if *only != "" {
+		var f []Spec
+		for _, s := range specs {
+			if s.Comp == *only {
+				f = append(f, s)
+			}
+		}
+		specs = f
+	}
+	self, err := os.Executable()
+	if err != nil {
+		panic(err)
+	}
+	work := filepath.Join(*out, "c12runs")
+	_ = os.MkdirAll(work, 0o755)
+
+	// batches: interleave so that every child gets a mix of components
+	nb := *par * 3
+	if nb > len(specs) {
+		nb = len(specs)
+	}
+	if nb == 0 {
+		nb = 1
+	}
+	batches := make([][]Spec, nb)
+	for i, s := range specs {
+		batches[i%nb] = append(batches[i%nb], s)
+	}
+	type crash struct {
+		spec Spec
+		tail string
+	}
+	var mu sync.Mutex
+	var results []Result
+	var crashes []crash
+	sem := make(chan struct{}, *par)
+	var wg sync.WaitGroup
+	t0 := time.Now()
+	for bi := range batches {
+		wg.Add(1)
+		go func(bi int) {
+			defer wg.Done()
+			sem <- struct{}{}
+			defer func() { <-sem }()
+			todo := batches[bi]
+			sub := 0
+			for len(todo) > 0 {
+				rs, cr, tail := runChild(self, work, bi*100+sub, todo, *verbose)
+				sub++
+				mu.Lock()
+				results = append(results, rs...)
+				mu.Unlock()
+				if cr == nil {
+					break
+				}
+				mu.Lock()
+				crashes = append(crashes, crash{*cr, tail})
+				mu.Unlock()
+				// continue after the crashed spec
+				var rest []Spec
+				seen := false
+				for _, s := range todo {
+					if seen {
+						rest = append(rest, s)
+					}
+					if s.ID == cr.ID {
+						seen = true
+					}
+				}
+				todo = rest
+			}
+		}(bi)
+	}
+	wg.Wait()
+	sort.Slice(results, func(i, j int) bool { return results[i].Spec.ID < results[j].Spec.ID })
+
+	w := &cf.Writer{Dir: *out, Prefix: "cases_c12", Imports: "From SV Require Import C12.Lts C12.Corr.", CaseType: "case",
+		MismatchFn: "mismatches_c12", ShardSize: 150}
+	type sideCase struct {
+		Spec     Spec     `json:"spec"`
+		Comp     string   `json:"comp"`
+		Cfg      []int64  `json:"cfg"`
+		Obs      []string `json:"obs"`
+		Events   int      `json:"events"`
+		ClosedAt int      `json:"closedAt"`
+		Notes    []string `json:"notes,omitempty"`
+		Crash    string   `json:"crash,omitempty"`
+	}
+	nruns, nfail := 0, 0
+	for _, r := range results {
+		nruns++
+		var mon *cf.Monitor
+		if len(r.Failures) > 0 {
+			nfail++
+			whats := make([]string, len(r.Failures))
+			for i, f := range r.Failures {
+				whats[i] = f.What
+			}
+			mon = &cf.Monitor{Signature: r.Spec.Comp + ":" + r.Failures[0].Sig, What: fmt.Sprintf("%s/%s k=%d sync=%v %v: %s", r.Spec.Comp, r.Spec.Scen, r.Spec.K, r.Spec.Sync, r.Spec.P, strings.Join(whats, "; "))}
+		}
+		if len(r.Comps) == 0 {
+			// the scenario could not be set up: report as a broken run (no case), visible in the notes
+			fmt.Printf("NOTE setup failed for %s/%s: %v\n", r.Spec.Comp, r.Spec.Scen, r.Notes)
+			continue
+		}
+		for i, c := range r.Comps {
+			side := cf.Sidecar{Case: sideCase{r.Spec, c.Comp, c.Cfg, c.Obs, r.Events, r.ClosedAt, r.Notes, ""}, Kind: r.Spec.Comp + "/" + r.Spec.Scen,
+				Nontrivial: len(c.Obs) >= 2 && (r.ClosedAt == r.Spec.K || r.Events >= r.Spec.K)}
+			if i == 0 {
+				side.Monitor = mon
+			}
+			w.Add(caseTerm(c), side)
+		}
+	}
+	for _, c := range crashes {
+		nfail++
+		sig := classifyPanic(c.tail)
+		what := fmt.Sprintf("%s/%s k=%d sync=%v %v: the process died while this run was executing (a panic in a sarama goroutine that is not started with withRecover)", c.spec.Comp, c.spec.Scen, c.spec.K, c.spec.Sync, c.spec.P)
+		first := c.tail
+		if i := strings.Index(first, "\n\n"); i > 0 && i < 1500 {
+			first = first[:i]
+		}
+		side := cf.Sidecar{Case: sideCase{Spec: c.spec, Comp: c.spec.Comp, Crash: first}, Kind: c.spec.Comp + "/" + c.spec.Scen, Nontrivial: true,
+			Monitor: &cf.Monitor{Signature: c.spec.Comp + ":crash:" + sig, What: what + " — " + strings.SplitN(strings.TrimSpace(c.tail), "\n", 2)[0]}}
+		// an observation the model cannot accept: the correspondence flags the run as well
+		w.Add(fmt.Sprintf("{| c_comp := %s; c_cfg := []; c_obs := [ORet 9 9]; c_complete := false |}", compCtor[c.spec.Comp]), side)
+	}
+	w.Close()
+	fmt.Printf("RUNS %d cases %d monitor-failures %d crashes %d wall %.1fs\n", nruns, w.Total, nfail, len(crashes), time.Since(t0).Seconds())
 }
